@@ -15,7 +15,7 @@ ASSUMPTIONS = [
 
 
 def run():
-  return pairrun.run_pairs('C17', [('lv.gen_meta', 'c17_pairs', 40, 2400)], FUNCTIONS, ASSUMPTIONS,
+  return pairrun.run_pairs('C17', [('lv.gen_meta', 'c17_pairs', 40, 2400), ('lv.gen_meta', 'c17_dataset_pairs', 4, 40)], FUNCTIONS, ASSUMPTIONS,
                            'DESIGN.md §3 C17',
                            rejected_is_violation=lambda r: True)
 
